@@ -63,7 +63,7 @@ def shards(tier, seed):
 
 def perms_for(n, idx):
     allp = list(itertools.permutations(range(n)))
-    if n <= 3:
+    if n <= 2:
         return allp
     # identity + two rotating through all permutations by case index
     return [allp[0], allp[(1 + idx) % len(allp)], allp[(1 + 7 * idx) % len(allp)]]
@@ -122,11 +122,14 @@ def run(task):
             # ---- library alignments: carried values
             maxw = -(-m // n) + 1
             plan = [("best", None, "cbc"), ("soft", None, "cbc")] + [("fast", w, "cbc") for w in range(1, min(maxw, 2) + 1)]
-            plan += [("best", None, "glpk_noimport"), ("soft", None, "glpk_error"), ("fast", 1, "glpk_noimport")]
+            cidx = len(res["state_set"]) + len(enum)
+            if cidx % 3 == 0:  # the fall-back configurations on every third (continuum, recipe)
+                plan += [("best", None, "glpk_noimport"), ("soft", None, "glpk_error"), ("fast", 1, "glpk_noimport")]
             plan = [(k_, w_, b_, None) for k_, w_, b_ in plan]
             hk = len(res["state_set"])
-            plan += [("best", None, "cbc", {"recipe": recipe, "how": A.WARM_KINDS[hk % len(A.WARM_KINDS)]}),
-                     ("soft", None, "cbc", {"recipe": recipe, "how": A.WARM_KINDS[(hk + 3) % len(A.WARM_KINDS)]})]
+            if hk % 2 == 0:
+                plan += [("best", None, "cbc", {"recipe": recipe, "how": A.WARM_KINDS[(hk // 2) % len(A.WARM_KINDS)]}),
+                         ("soft", None, "cbc", {"recipe": recipe, "how": A.WARM_KINDS[(hk // 2 + 3) % len(A.WARM_KINDS)]})]
             for kind, window, backend, warm in plan:
                 obs = A.eval_case(spec, recipe, backend if A.cbc_available() else "glpk_noimport", kind, window, warm=warm)
                 res["evaluations"] += 1
